@@ -13,7 +13,14 @@ for d in sorted(glob.glob("/verif/seeded/*")):
     ran = [l.split()[0] for l in res.splitlines() if " tier=" in l]
     harmless = m.get("kind") == "harmless"
     if harmless:
-        status = ("FALSE ALARM from " + ",".join(sorted(set(caught)))) if caught else ("quiet (as required)" if ran else "not run yet")
+        concrete = [l for l in res.splitlines() if l.startswith("VIOLATION") and "no-failing-input-found" not in l]
+        if concrete:
+            status = "FALSE ALARM (concrete) from " + ",".join(sorted(set(caught)))
+        elif caught:
+            quiet = [r for r in ran if r not in caught]
+            status = "no-failing-input-found from %s (a translator / observation point lost its code shape)%s" % (",".join(sorted(set(caught))), ("; quiet: " + ",".join(quiet)) if quiet else "")
+        else:
+            status = ("quiet (%s)" % ",".join(ran)) if ran else "not run yet"
         rows.append("| %s | (harmless rewrite) %s | %s | %s |" % (name, (m.get("what_changed") or "")[:150].replace("|", "/").replace("\n", " "), "-", status))
         continue
     status = ("caught by " + ",".join(sorted(set(caught))) + (" (no-failing-input-found)" if nofound else "")) if caught else ("MISSED (ran %s)" % ",".join(ran) if ran else "not run yet")
